@@ -170,3 +170,70 @@ Definition run_case (lower : str -> str) (ku gu nu : bool) (enum : ident) (vs : 
    shown nu enum,
    hits lower ku gu vs (strings_upto alphabet maxlen),
    hits lower ku gu vs extra).
+
+(* ================================================================== growth round *)
+
+(* ------------------------------------------------------------------ which enums are accepted *)
+
+(** from_str.rs:58-61: the grouping loop panics on the first variant that has fields
+    ("Only enums with no fields can derive(FromStr)"); input: `fields.is_empty()` of every variant *)
+Definition enum_accepts (fields_empty : list bool) : bool := forallb (fun b => b) fields_empty.
+
+(* ------------------------------------------------------------------ impl headers *)
+
+Inductive gparam := GLifetime (name : str) | GType (name : str) | GConst (name : str).
+Definition garg (p : gparam) : str := match p with GLifetime n | GType n | GConst n => n end.
+
+(** a generic parameter as declared: inline bounds (for a const parameter: its type), default *)
+Record gparam_decl := { gp : gparam; gp_bounds : list str; gp_default : option str }.
+
+(** utils.rs:161-172 `add_extra_ty_param_bound`: the trait path is pushed onto the bounds of every TYPE parameter *)
+Definition add_ty_bound (bound : str) (ps : list gparam_decl) : list gparam_decl :=
+  map (fun p => match gp p with
+                | GType _ => {| gp := gp p; gp_bounds := gp_bounds p ++ [bound]; gp_default := gp_default p |}
+                | _ => p
+                end) ps.
+
+Record header := {
+  h_attrs : list str;                     (* outer attributes of the impl, in order *)
+  h_params : list (gparam * list str);    (* `impl<...>`: parameter + bounds, never a default (syn ImplGenerics) *)
+  h_trait : str;
+  h_self : str * list str;
+  h_where : str
+}.
+
+Definition a_automatically_derived : str := [35;91;97;117;116;111;109;97;116;105;99;97;108;108;121;95;100;101;114;105;118;101;100;93].
+Definition a_allow_deprecated : str := [35;91;97;108;108;111;119;40;100;101;112;114;101;99;97;116;101;100;41;93].
+Definition a_allow_unreachable : str := [35;91;97;108;108;111;119;40;117;110;114;101;97;99;104;97;98;108;101;95;99;111;100;101;41;93].
+
+Definition impl_params (ps : list gparam_decl) := map (fun p => (gp p, gp_bounds p)) ps.
+
+(** from_str.rs:19-50 with utils.rs State (generics = add_extra_ty_param_bound(input.generics, trait_path)) *)
+Definition struct_header (trait name : str) (ps : list gparam_decl) (w : str) : header :=
+  {| h_attrs := [a_automatically_derived];
+     h_params := impl_params (add_ty_bound trait ps);
+     h_trait := trait; h_self := (name, map (fun p => garg (gp p)) ps); h_where := w |}.
+
+(** from_str.rs:96-103 (since a07fcdf): the enum's own generics, split_for_impl *)
+Definition enum_header (trait name : str) (ps : list gparam_decl) (w : str) : header :=
+  {| h_attrs := [a_allow_deprecated; a_allow_unreachable; a_automatically_derived];
+     h_params := impl_params ps;
+     h_trait := trait; h_self := (name, map (fun p => garg (gp p)) ps); h_where := w |}.
+
+(* ------------------------------------------------------------------ variants written `V()` / `V{}` *)
+
+(** shape of a variant; `syn::Fields::is_empty()` is true of the first three *)
+Inductive vshape := VUnit | VTupleEmpty | VBraceEmpty | VFields.
+Definition shape_empty (s : vshape) : bool := match s with VFields => false | _ => true end.
+
+(** from_str.rs:79-90: every arm's value is `#input_type::#variant {}` (since bdb9bb9; before: the bare
+    path `#input_type::#variant`).  [braces] is the switch, re-read from the source (Gen/C13Flags.v).
+    `E::V {}` is a value of the enum for a variant declared `V`, `V()` or `V {}` alike; the bare path is
+    one only for a unit variant (for `V()` it is the constructor function, for `V{}` not a value at
+    all).  That this is so is rustc's verdict (the check compiles every shape). *)
+Definition arm_value_is_enum (braces : bool) (s : vshape) : bool :=
+  if braces then shape_empty s else match s with VUnit => true | _ => false end.
+
+(** the macro accepts the enum / the accepted expansion type-checks *)
+Definition enum_accepts_shapes (ss : list vshape) : bool := enum_accepts (map shape_empty ss).
+Definition arms_typecheck (braces : bool) (ss : list vshape) : bool := forallb (arm_value_is_enum braces) ss.
